@@ -1,6 +1,11 @@
 import os, re
 import runner as R
 from props import *
+import C05_gen
+
+# the native limiter is a composition of GroupBy / MergeMap (= MergeAll) / WindowWhen: MergeAll is one of the operators re-translated from
+# the Go source on every run and proved to refine the model (RoProps/C05gen) - the premise 'the composition operators are the modelled ones'
+LEAN_MODULES = ['C20'] + C05_gen.LEAN_MODULES
 
 MANIFEST = dict(
     text="Proved in Lean for every timeline, quota and tick placement: the native limiter's logical-time execution (GroupBy routing + per-group WindowWhen/Take/MergeAll machine + in-place merge) "
@@ -104,7 +109,7 @@ def check(ctx):
                       f'{[h.split()[2:] for h in history.get(cid, [])]}\n# the case line carries the last observation (in= emitted items k:v:t0:t1, obs= passed items k:v@ts, term=)\n'
                       f'{last.get(cid, c)}\n# model/acceptor: {l}\n# replay (re-observes): ./check C20 --replay <this file>\n')
     return dict(
-        search=lambda ctx, out: any(not v[2] for v in ctx.violations),   # a concrete failing input found by the runs explains a composition row that no longer checks
+        search=combine_search(lambda ctx, out: any(not v[2] for v in ctx.violations), C05_gen.search),   # a concrete failing input found by the runs explains a composition row that no longer checks
         rule='kind=rate. native-log: the composition of native/operator.go rebuilt from the real GroupBy/MergeMap/WindowWhen/Map(Take)/MergeAll with a hand-fired boundary, '
              'timelines over {item k0, item k1, tick k0, tick k1} exhaustive to length 4 (quick) / 6 (thorough) x quota {0,1,2} x ending {C,E,none} x {sync,hot}, plus seeded timelines (<=45 events, <=4 keys, quota<=4): output EQUAL to the model. '
              'ulule: real operator over a deterministic history-driven store (limit m, epoch p calls, optional failing call), inputs exhaustive to length 4/6 over 2 keys x m{0,1,2} x p{1,3} x failAt{-,0,2} x ending x {sync,hot} + seeded: output and store answers EQUAL to the model. '
